@@ -1,11 +1,28 @@
-"""C11 — operators get the full event stream in order; a dead one blocks nobody (Operators.tla)"""
+"""C11 — operators get the full event stream in order; a dead one blocks nobody (Operators.tla, Stall.tla)"""
+import json, random
 from vlib import core
 from checks.ops_common import run_ops
 
 def run(ctx):
+    quick = ctx.tier == "quick"
     behs, summ = run_ops(ctx, "C11", "Trace_Operators_mon11.cfg", lambda inc, pre_auth: not (pre_auth and inc["kind"] == "panic"))
+    # ---- a connection that stays open but stops reading (Stall.tla)
+    core.design_check(ctx, "Stall.tla", "Stall.cfg", timeout=600)
+    sb = core.generate(ctx, "Gen_Stall.tla", "Gen_Stall.cfg", 0, 0, ctx.seed, bfs=True, timeout=600)
+    sb = random.Random(ctx.seed).sample(sb, min(len(sb), 8 if quick else 64))
+    ctx.say("  stall histories: %d (one operator stops reading; big broadcasts, an agent registration and a closing line follow)" % len(sb))
+    hb = core.build_harness(ctx)
+    strace, ssumm = core.run_harness(ctx, hb, "stall", sb, "stall", shards=min(8, len(sb)), timeout=2500)
+    for inc in ssumm["incidents"]:
+        core.report(ctx, {"check": "replay-stall", "kind": inc["kind"], "site": inc["site"]}, inc)
+    sv = core.validate_traces(ctx, "Trace_Stall.tla", "Trace_Stall_strict.cfg", "Trace_Stall_mon.cfg", strace, "stall", timeout=600, max_viol=4)
+    for x in sv["violations"]:
+        evs = [json.loads(l) for l in x["lines"]]
+        ev = evs[x["event"] - 1] if 0 < x["event"] <= len(evs) else evs[-1]
+        core.report(ctx, {"check": "Mon_Stall", "invariant": x["invariant"], "op": ev.get("o", {}).get("op")},
+                    {"history": [e.get("o") for e in evs if e.get("ev") == "Step"][:x["event"]], "observed": {k: v for k, v in ev.get("obs", {}).items()}})
     core.write_evidence(ctx, "model_checking",
-        rule="behaviours = handshake matrices + seeded random walks of Operators.tla (connect, first message of 11 kinds, chat, agent output, registration, listener add by server/operator, removal, clean close, transport cut racing a broadcast) replayed with real websocket clients against the real per-connection loop; every frame every socket received is labelled and compared; non-trivial = distinct histories",
-        samples=summ["samples"], evaluations=summ["behaviours"], distinct_nontrivial=len({core.behaviour_hash(b) for b in behs}),
-        extra={"counters": summ["counters"]},
-        assumptions=["transport faults are connection resets; a stalled-but-open peer (full TCP window) is not produced", "frame labelling in drive/operators.go"])
+        rule="behaviours = handshake matrices + seeded random walks of Operators.tla (connect, first message of 11 kinds, chat, agent output, registration, listener add by server/operator, removal, clean close, transport cut racing a broadcast) replayed with real websocket clients against the real per-connection loop; every frame every socket received is labelled and compared; plus stall histories of Stall.tla: one of three authenticated operators stops reading (connection stays open, small receive buffer), then 3 MiB broadcasts, an agent registration and a closing line, each waited for up to 45 s; non-trivial = distinct histories",
+        samples=summ["samples"], evaluations=summ["behaviours"] + ssumm["behaviours"], distinct_nontrivial=len({core.behaviour_hash(b) for b in behs}) + len(sb),
+        extra={"counters": summ["counters"], "stall_counters": ssumm["counters"]},
+        assumptions=["transport faults are connection resets and one kind of stall (a peer that never reads again)", "frame labelling in drive/operators.go"])
